@@ -16,10 +16,12 @@ def curveLookup : List Nat → Nat → Option Nat
 def curveN (d : List Nat) (delta : Nat) : Nat :=
   if delta = 0 then 0 else
   let last := d.getLastD 0
-  let prefixJobs := (delta / last) * d.length
-  let tail := delta % last
+  -- `delta` = `pre` full multiples of the largest known distance + a remainder in `1 ..= last`
+  let pre := (delta - 1) / last
+  let prefixJobs := pre * d.length
+  let tail := delta - last * pre
   if tail > d.headD 0 then prefixJobs + (curveLookup d tail).getD 0
-  else prefixJobs + (if tail ≠ 0 then 1 else 0)
+  else prefixJobs + 1
 
 /-- well-formed delta-min vector: non-empty, non-decreasing, last entry positive
 (`Curve::new` asserts non-emptiness; `steps_iter` subtracts neighbours; `number_arrivals`
